@@ -24,6 +24,9 @@ Persisted(x, c) == x.cell1[c] + x.cell2[c] + x.cell3[c]
 UpperBoundAt(x) == \A c \in DOMAIN x.st : Persisted(x, c) + EX(x.st[c]) <= x.begun[c]
 (* once all calls have returned: equality (runs that reach the saturation limit excepted), and no hold left behind *)
 QuiescentAt(x) == (x.final /\ ~x.sat) => \A c \in DOMAIN x.st : Persisted(x, c) + EX(x.st[c]) = x.begun[c] /\ R(x.st[c]) = 0
+(* runs that reach a saturation limit: the value sticks at the limit, it does not wrap around *)
+Min(a, b) == IF a < b THEN a ELSE b
+SticksAt(x) == (x.final /\ x.sat) => \A c \in DOMAIN x.st : Persisted(x, c) + EX(x.st[c]) >= Min(x.begun[c], x.satlimit)
 (* once a file is open and all calls have returned nothing remains unpersisted *)
 FlushedAt(x) == (x.final /\ x.fileopen) => \A c \in DOMAIN x.st : EX(x.st[c]) = 0
 (* a pointer believed valid points into an open mapping *)
@@ -37,6 +40,7 @@ Quiescent == QuiescentAt(Trace[l])
 Flushed == FlushedAt(Trace[l])
 PtrFresh == PtrFreshAt(Trace[l])
 Monotone == MonotoneAt(l)
+Sticks == SticksAt(Trace[l])
 
 (* all failing (line, clause) pairs at once, printed for the driver *)
 Bad == {<<i, "UpperBound">> : i \in {j \in 1..Len(Trace) : ~UpperBoundAt(Trace[j])}}
@@ -44,5 +48,6 @@ Bad == {<<i, "UpperBound">> : i \in {j \in 1..Len(Trace) : ~UpperBoundAt(Trace[j
        \cup {<<i, "Flushed">> : i \in {j \in 1..Len(Trace) : ~FlushedAt(Trace[j])}}
        \cup {<<i, "PtrFresh">> : i \in {j \in 1..Len(Trace) : ~PtrFreshAt(Trace[j])}}
        \cup {<<i, "Monotone">> : i \in {j \in 1..Len(Trace) : ~MonotoneAt(j)}}
+       \cup {<<i, "Sticks">> : i \in {j \in 1..Len(Trace) : ~SticksAt(Trace[j])}}
 ASSUME PrintT(<<"C03BAD", Bad>>)
 =============================================================================
